@@ -40,8 +40,10 @@ pub fn remove_protection_of_long_packet(
         return Ok(None);
     }
 
+    // The reserved bits are not judged here: the packet is not authenticated yet, see
+    // `check_reserved_bits_of_long_packet`.
     let specific_bits = LongSpecificBits::from(*first_byte);
-    let pn_len = specific_bits.pn_len()?;
+    let pn_len = specific_bits.pn_len_unchecked();
     let (_, undecoded_pn) = take_pn_len(pn_len)(max_pn_buf).unwrap();
 
     Ok(Some(undecoded_pn))
@@ -82,11 +84,32 @@ pub fn remove_protection_of_short_packet(
         return Ok(None);
     }
 
+    // The reserved bits are not judged here: the packet is not authenticated yet, see
+    // `check_reserved_bits_of_short_packet`.
     let clear_bits = ShortSpecificBits::from(*first_byte);
-    let pn_len = clear_bits.pn_len()?;
+    let pn_len = clear_bits.pn_len_unchecked();
     let (_, undecoded_pn) = take_pn_len(pn_len)(max_pn_buf).unwrap();
 
     Ok(Some((undecoded_pn, clear_bits.key_phase())))
+}
+
+/// Checks the reserved bits of a long packet whose header protection has been removed
+/// and whose payload has been successfully decrypted.
+///
+/// A non-zero value is a connection error of type PROTOCOL_VIOLATION, but only after
+/// removing both packet and header protection
+/// ([RFC 9000 Section 17.2](https://www.rfc-editor.org/rfc/rfc9000.html#section-17.2-8.2),
+/// [RFC 9001 Section 5.4](https://www.rfc-editor.org/rfc/rfc9001.html#section-5.4)):
+/// the bits of an unauthenticated packet are under the control of anyone on the path.
+pub fn check_reserved_bits_of_long_packet(first_byte: u8) -> Result<(), Error> {
+    LongSpecificBits::from(first_byte).check_reserved_bits()
+}
+
+/// Checks the reserved bits of a short packet whose header protection has been removed
+/// and whose payload has been successfully decrypted.
+/// See [`check_reserved_bits_of_long_packet`].
+pub fn check_reserved_bits_of_short_packet(first_byte: u8) -> Result<(), Error> {
+    ShortSpecificBits::from(first_byte).check_reserved_bits()
 }
 
 /// Decrypt the body of a packet, applicable to both long and short packets.
